@@ -473,4 +473,89 @@ theorem lookup_toWMap (cid : Nat) : ∀ (ps : List (Int × Rat)),
       rw [b1, b2]
       exact ih
 
+
+/-! ### vertical metrics `W2` -/
+
+abbrev Num3 := (Rat × Bool) × (Rat × Bool) × (Rat × Bool)
+
+def toW2Map (ps : List (Int × (Rat × Rat × Rat))) : W2Map :=
+  ps.map (fun e => ((e.1 : Rat), (WVal.num e.2.1, WVal.num e.2.2.1, WVal.num e.2.2.2)))
+
+theorem toW2Map_append (a b : List (Int × (Rat × Rat × Rat))) : toW2Map (a ++ b) = toW2Map a ++ toW2Map b := by
+  simp [toW2Map]
+
+theorem chop3W_flat : ∀ (ws : List Num3),
+    chop3W (ws.flatMap (fun w => [WVal.num w.1.1, WVal.num w.2.1.1, WVal.num w.2.2.1]))
+      = ws.map (fun w => (WVal.num w.1.1, WVal.num w.2.1.1, WVal.num w.2.2.1))
+  | [] => by simp [chop3W]
+  | w :: ws => by
+    simp only [List.flatMap_cons, List.cons_append, List.nil_append, chop3W, List.map_cons]
+    rw [chop3W_flat ws]
+
+theorem putList2_eq (c : Nat) : ∀ (ws : List Num3) (i : Nat) (m : W2Map),
+    putList2 (c : Rat) i (ws.map (fun w => (WVal.num w.1.1, WVal.num w.2.1.1, WVal.num w.2.2.1))) m
+      = toW2Map (list2Pairs c i ws).reverse ++ m
+  | [], i, m => by simp [putList2, list2Pairs, toW2Map]
+  | w :: ws, i, m => by
+    simp only [List.map_cons, putList2, list2Pairs, List.reverse_cons, toW2Map_append]
+    rw [putList2_eq c ws (i + 1)]
+    simp only [toW2Map, List.map_cons, List.map_nil, List.append_assoc, List.cons_append, List.nil_append,
+      Rat.intCast_natCast, Rat.natCast_add]
+
+theorem putRange_gen {β : Type} (c1 : Int) (v : β) : ∀ (n i : Nat) (m : List (Rat × β)),
+    putRange c1 v n i m =
+      ((List.range n).map (fun (j : Nat) => (((c1 + ((i + j : Nat) : Int) : Int) : Rat), v))).reverse ++ m
+  | 0, i, m => by simp [putRange]
+  | n + 1, i, m => by
+    rw [putRange, putRange_gen c1 v n (i + 1), range_succ_map]
+    simp only [List.reverse_cons, List.append_assoc, Nat.add_zero, List.cons_append, List.nil_append]
+    congr 2
+    apply List.map_congr_left
+    intro j _
+    have : i + 1 + j = i + (j + 1) := by omega
+    rw [this]
+
+theorem widths2_entry (e : W2Entry) (rest : List WElem) (m : W2Map) :
+    getWidths2Aux (renderW2Entry e ++ rest) (m, []) =
+      getWidths2Aux rest (toW2Map (w2entryPairs e).reverse ++ m, []) := by
+  cases e with
+  | list c ws =>
+    simp only [renderW2Entry, List.cons_append, List.nil_append, getWidths2Aux, widths2Step,
+      List.getLast?_singleton, w2entryPairs, chop3W_flat]
+    rw [putList2_eq]
+  | range c1 c2 w =>
+    simp only [renderW2Entry, List.cons_append, List.nil_append, getWidths2Aux, widths2Step, and_self, if_true,
+      Rat.floor_intCast, w2entryPairs]
+    rw [putRange_gen]
+    simp [toW2Map, Function.comp_def]
+
+theorem widths2_fold : ∀ (es : List W2Entry) (m : W2Map),
+    getWidths2Aux (renderW2 es) (m, []) = .ok (toW2Map (specWidth2Pairs es).reverse ++ m)
+  | [], m => by simp [renderW2, specWidth2Pairs, toW2Map, getWidths2Aux]
+  | e :: rest, m => by
+    have ih := widths2_fold rest (toW2Map (w2entryPairs e).reverse ++ m)
+    simp only [renderW2, specWidth2Pairs, List.flatMap_cons] at ih ⊢
+    rw [widths2_entry e _ m, ih]
+    simp [toW2Map_append]
+
+theorem lookup_toW2Map (cid : Nat) : ∀ (ps : List (Int × (Rat × Rat × Rat))),
+    (toW2Map ps).lookup (cid : Rat) =
+      (ps.lookup (cid : Int)).map (fun w => (WVal.num w.1, WVal.num w.2.1, WVal.num w.2.2))
+  | [] => by simp [toW2Map]
+  | (k, w) :: rest => by
+    have ih := lookup_toW2Map cid rest
+    simp only [toW2Map, List.map_cons, List.lookup_cons] at ih ⊢
+    by_cases hk : (cid : Int) = k
+    · subst hk
+      simp [Rat.intCast_natCast]
+    · have hne : ¬ ((cid : Rat) = (k : Rat)) := by
+        intro h
+        apply hk
+        rw [← Rat.intCast_natCast] at h
+        exact Rat.intCast_inj.mp h
+      have b1 : ((cid : Rat) == (k : Rat)) = false := by simpa using hne
+      have b2 : ((cid : Int) == k) = false := by simpa using hk
+      rw [b1, b2]
+      exact ih
+
 end PdfVerif.CIDFontLemmas
